@@ -67,8 +67,15 @@ fn run(text: &str, se: u64, ed: u64, kv: &[(String, String)], width: u64) -> (&'
 fn main() {
     panic::set_hook(Box::new(|_| {}));
     let stdin = std::io::stdin();
-    let stdout = std::io::stdout();
-    let mut out = stdout.lock();
+    // rustfmt echoes a crate-level `#![rustfmt::skip]` standard input straight to the process's
+    // stdout: keep the protocol on a private descriptor and send fd 1 to /dev/null
+    let mut out = unsafe {
+        use std::os::fd::FromRawFd;
+        let proto = libc::dup(1);
+        let devnull = libc::open(b"/dev/null\0".as_ptr() as *const libc::c_char, libc::O_WRONLY);
+        libc::dup2(devnull, 1);
+        std::fs::File::from_raw_fd(proto)
+    };
     for line in stdin.lock().lines() {
         let Ok(line) = line else { break };
         let Ok(v) = serde_json::from_str::<Value>(&line) else {
